@@ -70,7 +70,7 @@ fn shape_of(p: &[PushProgram], out: &mut Shape, depth: usize) {
             PushProgram::Instruction(ins) => out.push(code_of(ins)),
             PushProgram::Block(b) => {
                 out.push(100);
-                if depth < 6 {
+                if depth < 16 {
                     shape_of(b, out, depth + 1);
                 }
                 out.push(101);
@@ -96,7 +96,7 @@ fn reference<const N: usize>(g: &[u8; N], len: usize, pos: &mut usize, top: bool
             let mut k = 0;
             while k < opens(c) {
                 out.push(100);
-                if depth < 6 {
+                if depth < 16 {
                     reference::<N>(g, len, pos, false, out, depth + 1);
                 }
                 // blocks still open when the genome ends are closed there (possibly empty)
